@@ -50,7 +50,7 @@ def transformations(tier):
         T.append(("rigid", "translate", k))
     for k in ("reversed", "rotated", "sorted", "sorted-desc"):
         T.append(("order", k, None))
-    for k in ("chains", "plus1000", "from-300", "around-zero", "icode-pairs", "icode-triples", "label-differs"):
+    for k in ("chains", "plus1000", "from-300", "around-zero", "icode-pairs", "icode-triples", "label-differs", "hetatm-serials"):
         T.append(("relabel", k, None))
     T.append(("format", "pdb", None))
     return T
@@ -279,6 +279,16 @@ def apply_abstract(t, tr):
         elif kind == "label-differs":
             for a in out:
                 a["_label_differs"] = True
+        elif kind == "hetatm-serials":
+            # every other residue is written as HETATM (as modified nucleotides are) and atom serials start at 9 995, so that from the sixth atom on the
+            # serial has five digits and touches the record name in PDB text ('HETATM10000'): record type and serial are not part of a residue's identity
+            for k, (_, atoms) in enumerate(corpus.residues(out)):
+                if k % 2 == 1:
+                    for a in atoms:
+                        a["record"] = "HETATM"
+            for k, a in enumerate(out):
+                a["serial"] = 9995 + k
+            return out
     for k, a in enumerate(out):
         a["serial"] = k + 1
     return out
